@@ -65,6 +65,12 @@ CLAIMED = {
  "C04": ("Lean 4: pid-accounting invariant PidInv (listed pids are below the kernel's pid counter, are processes of the kernel table, have a Process object, are listed once, and by one watcher object only; uids distinct) proved for every reachable state by generic preservation over the coroutine interpreter (every kernel call keeps the pid counter and the pid list: KStep); local theorems for numprocesses/list/status, reap, the dead-pid drop of manage_processes and spawn_process's register-before-hooks / keep-until-killed; differential correspondence of the core model with the real code on a simulated kernel",
          "C04_pid_inv (any configuration, any op list), C04_no_pid_under_two_watchers(_getW), C04_no_pid_listed_twice, C04_listed_pids_are_kernel_processes, C04_fresh_pid_never_listed, C04_total_listed_nodup, C04_numprocesses_counts_listed, C04_numprocesses_total, C04_list_reports_active_listed, C04_status_reports_field, C04_reap_pops, C04_manage_drops_dead, C04_dead_pid_dropped_by_check, C04_spawnAdopt_registers, C04_spawn_registers_before_hooks, C04_execfail_registers_nothing, C04_veto_keeps_listed_until_callback, C04_popProc_pops are proved. 'stopped implies no listed process' in every non-hanging reachable state and 'no transient status once the operation has ended' are not theorems yet (Hoare-style facts, not per-writer invariants): they are checked on the implementation by the oracle at every quiescent point of every generated scenario, as are zombies outliving a check.",
          "DESIGN.md 5 (C04)", CORE_NOTE),
+ "C18": ("Lean 4: confinement — a small Hoare logic over the ghost signal log (every appended kernel signal carries the designated number and goes to a listed pid of the named watcher or to a kernel descendant of one; parent links only disappear under kernel calls) for Watcher.send_signal, Process.send_signal_child, send_signal_process and the whole `signal` command in all modes, the pid filter of `kill`, refusal of bad designations; designation language — theorems about a model of util.to_signum over all strings; differential correspondence of both models with the real code",
+         "C18_send_signal_only_own, C18_send_signal_target, C18_send_signal_vetoed_no_signal, C18_send_signal_delivers, C18_send_signal_child_only_current_children, C18_send_signal_process_confined, C18_signal_cmd_targets (every mode, with or without pid), C18_signal_request_targets, C18_signal_cmd_targets_log, C18_signal_never_reaches_others, C18_signal_unknown_watcher, C18_signal_foreign_pid_no_signal / _request, C18_signal_own_pid_plain / _childpid / _children, C18_active_procs_subset, C18_kill_cmd_filters, C18_kill_cmd_only_listed, C18_kill_unknown_watcher, C18_kill_pid_zero_addresses_nobody, C18_bad_designation_no_signal; C18_designation_* (Props/C18Designation.lean). Not a theorem: that the pid is still listed when the asynchronous SIGKILL escalation of a kill fires (cross-step fact; the oracle checks every kernel signal of every generated scenario against watcher membership and kernel ancestry at that instant).",
+         "DESIGN.md 5 (C18)", CORE_NOTE),
+ "C19": ("Lean 4: theorems about the model of Arbiter.iter_watchers / _start_watchers / Watcher.spawn_processes (the sort is a stable descending sort for every list; which list each entry point hands to the start loop; the loop awaits one watcher's _start, whose spawn loop has finished, before the continuation touches the next; exact timers for the global and per-watcher warmup, with the arithmetic of the truncated subtraction) + differential correspondence of the core model with the real code on a simulated kernel with virtual time",
+         "C19_sorted_desc / _asc, C19_sort_perm, C19_sort_stable(_pair), C19_iter_watchers_sorted / _perm, C19_sort_uids_sorted, C19_start_uses_priority_order, C19_start_watchers_is_loop, C19_start_cmd_uses_priority_order, C19_restart_cmd_all, C19_start_cmd_several, C19_restart_several_then_start, C19_sequential(_exception), C19_start_awaits_spawn, C19_autostart_false_skipped(_exec), C19_start_watchers_done, C19_global_warmup_between_watchers, C19_spawn_pacing(_exact,_stopped), C19_spawn_started_now, C19_all_spawned_before_return. The end-to-end order and spacing of spawn calls over whole start sequences (with deaths in between) is checked on the implementation's kernel log by the oracle.",
+         "DESIGN.md 5 (C19)", CORE_NOTE),
 }
 NOT_YET = "not decided by the machinery in this revision (model layer not built yet); not claimed"
 NOT_APPLICABLE = {}
